@@ -60,7 +60,7 @@ func pgzipVerdict(data []byte) string {
 	}
 }
 
-func randSeq(r *rand.Rand, n int) string {
+func randSeq17(r *rand.Rand, n int) string {
 	b := make([]byte, n)
 	for i := range b {
 		b[i] = "acgt"[r.Intn(4)]
@@ -71,7 +71,7 @@ func randSeq(r *rand.Rand, n int) string {
 func makeText(r *rand.Rand, format string, nrec, seqlen int) string {
 	var sb bytes.Buffer
 	for i := 0; i < nrec; i++ {
-		s := randSeq(r, seqlen+r.Intn(20))
+		s := randSeq17(r, seqlen+r.Intn(20))
 		if format == "fastq" {
 			q := make([]byte, len(s))
 			for j := range q {
